@@ -56,7 +56,8 @@ ASSUMPTIONS = [
 ]
 EXPECTED_PROBES = ["probe.step_completed", "probe.breakpoint_hit", "probe.pause_from_hook", "probe.reset_rerun",
                    "probe.step_hit_end_of_run", "probe.non_one_shot_refired", "probe.peek_or_find",
-                   "probe.reset_with_source", "probe.metric_breakpoint_on_zero", "probe.breakpoint_added_from_hook"]
+                   "probe.reset_with_source", "probe.metric_breakpoint_on_zero", "probe.breakpoint_added_from_hook",
+                   "probe.reset_after_fast_loop_run", "probe.paused_at_final_delivery"]
 SHRINK_SKIP = ("n_entities", "n_kinds")
 
 
@@ -70,6 +71,10 @@ def gen(rng, tier):
     prog["stateless"] = stateless
     if stateless and rng.random() < 0.4:
         prog["post_run_cancel"] = [rng.randrange(1000) for _ in range(rng.randint(1, 3))]
+    if stateless and rng.random() < 0.5:
+        prog["reset_first_fast"] = True
+        if prog["end"] is None and rng.random() < 0.7:      # the fast loop needs an explicit end
+            prog["end"] = max([i["t"] for i in prog["initial"]] or [0]) + 4_000_000_000_000
     if stateless and rng.random() < 0.5:
         # a load source (and sometimes a daemon probe): reset() must re-prime them
         prog["source"] = {"rate": rng.choice([2.0, 4.0, 7.0]), "dur": rng.choice([1.0, 3.0, 5.0]),
@@ -286,6 +291,13 @@ def run_controlled(sc, *, trace=False, tracing=False):
                 if j in seg_pause_at:
                     raise Bad("pause/ignored", f"pause requested during delivery {j} but run continued to {now_n}")
             if complete():
+                # the satisfying delivery may be the very last one of the run: it still pauses right after it
+                if now_n > before:
+                    for bid, m in seg_bps.items():
+                        if mirror_true(m, now_n):
+                            raise Bad("breakpoint/missed-at-final-delivery",
+                                      f"breakpoint {m} satisfied by delivery {now_n}, the last of the run, but the run "
+                                      f"completed instead of pausing")
                 return
             reasons = []
             if now_n > before:
@@ -421,6 +433,8 @@ def run_controlled(sc, *, trace=False, tracing=False):
             seg_pause_at = set(pause_at)
             ctl.resume()
             expect_pause_reason(before, None)
+            if not ctl.is_running and processed() == before:
+                stats["took_effect"].add("paused_at_final_delivery")
             if ctl.is_running and processed() == before:
                 raise Bad("resume/no-progress", f"resume() returned paused without delivering anything at {before}")
             if ctl.is_running and any(not m.get("one_shot") for m in active_bps.values()):
@@ -504,6 +518,7 @@ def run(sc):
             r = _reset_check(sc)
             counters["probe.reset_rerun"] = 1
             counters["probe.reset_with_source"] = int(bool(sc.get("source")))
+            counters["probe.reset_after_fast_loop_run"] = int(bool(sc.get("reset_first_fast")) and sc.get("end") is not None)
             if r:
                 sig, msg = r
     except Bad as b:
@@ -529,6 +544,7 @@ def run(sc):
     counters["probe.metric_breakpoint_on_zero"] = int(any(o["op"] == "bp_metric" and o.get("cmp") in ("le", "eq", "lt") and o["ge"] <= 1
                                                            for o in sc.get("ctl", [])))
     counters["probe.breakpoint_added_from_hook"] = int("bp_from_hook" in te)
+    counters["probe.paused_at_final_delivery"] = int("paused_at_final_delivery" in te)
     for k in te:
         counters[f"ctl.{k}"] = 1
     h = hashlib.blake2b(repr((base["log"], sc.get("ctl"))).encode(), digest_size=12).hexdigest()
@@ -546,11 +562,17 @@ def _reset_check(sc):
     def tap(ev):
         tl.append((pr.entities[0].now.nanoseconds, ev.event_type))
 
-    sim.control.on_event(tap)
+    # run 1 either with control attached (instrumented loop) or untouched (fast loop; sim.control is not even
+    # looked at before it ends) -- which loop ran first must not matter to reset()+run()
+    fast_first = bool(sc.get("reset_first_fast")) and sc.get("end") is not None
+    if not fast_first:
+        sim.control.on_event(tap)
     sim.run()
     first = list(tl)
+    first_t = list(pr.tlog)
     del tl[:]
     pr.log.clear()
+    del pr.tlog[:]
     # cancelling an event that was already delivered is a documented no-op: it must not change the replay either
     for i in sc.get("post_run_cancel", []):
         if pr._created:
@@ -566,6 +588,9 @@ def _reset_check(sc):
                                                  f"the heap holds {prim}")
         sim.control.resume()
     second = list(tl)
+    if fast_first or first == second:
+        # entity-side record (clock, type, entity, generator step): independent of any control hook
+        first, second = first_t, list(pr.tlog)
     for uid, step, clk, evt in pr.log:
         if step < 0 and clk != evt:
             return ("reset/clock-ne-event-time", f"after reset() an event stamped {evt}ns was delivered while the clock read {clk}ns")
